@@ -80,6 +80,23 @@ CLAIMED.update({
                      "compared data."),
 })
 
+CLAIMED.update({
+    "C05": dict(cat="exploration", ref="DESIGN.md 3 (C05)",
+                technique="deterministic simulation of the read stream protocol (tell/seek cookies, line accounting) under simulated "
+                          "channels, codecs incl. utf-16, LF/CRLF/CR and short reads, on seeded documents whose every line carries a "
+                          "unique section tag; attribution oracle per section and per data cell",
+                text="Any order of sections after ~V, ~A anywhere, titles in either case and any spelling, empty and custom sections, "
+                     "steering names in ~C/~P/custom sections: each tagged line must arrive exactly once, in order, in the section "
+                     "whose title precedes it, and only ~V's VERS/WRAP/DLM and ~W's NULL may steer."),
+    "C07": dict(cat="exploration", ref="DESIGN.md 3 (C07)",
+                technique="deterministic simulation of the read stream protocol (sniff -> seek -> reshape passes) under simulated "
+                          "channels and delivery policies, both engines, on seeded documents whose cells carry their own (row, "
+                          "column) coordinates; cell-by-cell binding oracle",
+                text="d declared curves vs c data columns (c<,=,>d, d>=0), rows beyond the sniff window, wrapped/unwrapped, no WRAP "
+                     "item, comment/blank lines: equal lengths, exact cell placement, declared order/metadata, surplus columns "
+                     "unnamed after the declared ones, missing columns all-NaN."),
+})
+
 NOT_APPLICABLE = {
     "C04": "read_header_line is a pure function of one already-delivered line (regex cascade): no stream position, "
            "history, fault or interleaving can influence it, so deterministic simulation adds nothing (DESIGN.md 4)",
